@@ -60,7 +60,7 @@ def run(tier, seed, replay):
             np_ = rng.choice([2, 3])
             prog = [[dict(type=rng.choice(OPS), key=rng.choice([1, 1, 2])) for _ in range(rng.choice([1, 2, 2]))] for _ in range(np_)]
             runs.append(dict(id="rand-%d" % i, prog=prog, mode="random", count=4))
-        nfree = 100 if tier == "quick" else 2000
+        nfree = 800 if tier == "quick" else 4000
         for i in range(nfree):
             prog = [[dict(type=rng.choice(OPS), key=rng.choice([1, 1, 2])) for _ in range(2)] for _ in range(3)]
             runs.append(dict(id="free-%d" % i, prog=prog, mode="free", count=3))
